@@ -295,9 +295,9 @@ def r3_sequences(report, repo, rule='C02-R3', only_abortable=False):
     if n_exec != 1:
       return 'run-row: node not executed exactly once per iteration'
     c = p.calls(name='self._execute_node')[0]
-    if [dotted(a) for a in c.args[1:]] != [lib.param_names(f.node)[2], None] \
-        and not (len(c.args) == 3 and isinstance(c.args[2], ast.Constant) and
-                 c.args[2].value is False):
+    if not (len(c.args) == 3 and dotted(c.args[1]) == lib.param_names(
+        f.node)[2] and isinstance(c.args[2], ast.Constant) and
+            c.args[2].value is False):
       return 'run-row: _execute_node not called with (node, subtest_rec, False)'
     if v['nonc']:
       # must return the node's own result
